@@ -325,6 +325,13 @@ pub struct EnumSpec {
     /// (slot, text); slot 0 = before derive, 1 = after derive, 2 = after repr, 3 = after #[strum], 4 = last
     #[serde(default)]
     pub noise: Vec<(u8, String)>,
+    /// the enum item is produced by a `macro_rules!` macro: (fragment name, fragment kind, argument text).
+    /// Discriminant expressions may mention `$name`; the fragment reaches the derive inside an invisible group
+    #[serde(default)]
+    pub macro_args: Vec<(String, String, String)>,
+    /// items declared next to the enum that shadow prelude names (e.g. a local `trait Default`)
+    #[serde(default)]
+    pub decoys: Vec<String>,
 }
 
 impl EnumSpec {
@@ -347,6 +354,8 @@ impl EnumSpec {
             disc_opts: None,
             base_const: None,
             noise: vec![],
+            macro_args: vec![],
+            decoys: vec![],
         }
     }
     pub fn type_name(&self) -> String {
